@@ -98,7 +98,7 @@ func zeroRead(m spec.Message, tag uint16, k vg.Kind) string {
 // C16Dynamic: schema evolution through the dynamic tag-based API.
 func C16Dynamic(c *runner.Cfg) *report.Result {
 	res := report.New("C16", "dynamic")
-	res.Rule = "dynamic API: a message with a random tag set S (all field kinds, random write order, tags on both sides of 255/256) is read (by a third of the readers through a Clone kept while the source buffer is reused for another message) under a reader tag set S' (S' = S with random removals, additions and re-ordering): common tags equal the written values, tags of S'\\S read as zero of the reader's declared kind with presence false and without error, tags of S\\S' do not disturb anything; Copy/Merge: a writer that knows only a subset K of the fields writes new values for K, then merges the old message: K keeps the new values, every unknown field keeps the old one (half of the merges in a nested message whose parent already wrote fields with tags of the same set); non-trivial = both S\\S' and S'\\S non-empty or a merge with unknown fields; distinct = distinct encodings"
+	res.Rule = "dynamic API: a message with a random tag set S (all field kinds, random write order, tags on both sides of 255/256) is read (by a third of the readers through a Clone kept while the source buffer is reused for another message) under a reader tag set S' (S' = S with random removals, additions and re-ordering): common tags equal the written values, tags of S'\\S read as zero of the reader's declared kind with presence false and without error, tags of S\\S' do not disturb anything; Copy/Merge: a writer that knows only a subset K of the fields writes new values for K, then merges the old message: K keeps the new values, every unknown field keeps the old one (half of the merges in a nested message whose parent already wrote fields with tags of the same set); the other order as well: the old message is merged first and the known fields are then set again, the unknown fields must keep the old values; non-trivial = both S\\S' and S'\\S non-empty or a merge with unknown fields; distinct = distinct encodings"
 	x := map[*journal.Slot]*vg.Exec{}
 	mu := make(chan struct{}, 1)
 	mu <- struct{}{}
@@ -242,6 +242,50 @@ func C16Dynamic(c *runner.Cfg) *report.Result {
 			}
 			if m := vg.CheckRoot(mp, mb); !m.OK() {
 				res.Violate("c16:merge-loses-or-changes-field:"+normKey(m.List[0]), fmt.Sprintf("after Copy/Merge through a writer knowing %d of %d fields: %v", kn, len(a.Fields), m.List), witness(m.List))
+				return
+			}
+		}
+		// copy-and-modify in the other order: merge the old message first, then set the known fields
+		// again (their tags are now written twice). Whatever the rewritten fields read as, the fields
+		// the writer does not know must keep the old values.
+		if kn > 0 && kn < len(a.Fields) && idx%2 == 0 {
+			pv, stack := runner.Catch(func() {
+				w := spec.NewMessageWriter()
+				if err := w.Merge(spec.OpenMessage(ab)); err != nil {
+					res.Inconcl("merge-then-set: Merge failed: %v", err)
+					return
+				}
+				for _, i := range perm[:kn] {
+					f := a.Fields[i]
+					nv := vg.Random(rng.New(c.Seed, "c16/new2", uint64(idx)*64+uint64(i)), cfg)
+					if err := ex.WriteField(w.Field(f.Tag), nv); err != nil {
+						res.Inconcl("merge-then-set: writing field %d failed: %v", f.Tag, err)
+						return
+					}
+				}
+				out, err := w.Build()
+				if err != nil {
+					res.Inconcl("merge-then-set: Build failed: %v", err)
+					return
+				}
+				nm, oerr := spec.OpenMessageErr(out)
+				if oerr != nil {
+					res.Violate("c16:merge-then-set:open", oerr.Error(), witness(nil))
+					return
+				}
+				for _, f := range a.Fields {
+					if known[f.Tag] {
+						continue
+					}
+					if !nm.HasField(f.Tag) || string(nm.Field(f.Tag)) != string(msg.Field(f.Tag)) {
+						res.Violate("c16:merge-then-set:unknown-field-lost", fmt.Sprintf("the old message was merged into a writer which then set %d known fields again: field %d, which the writer does not know, reads back as %d bytes (present=%v), the old value has %d bytes", kn, f.Tag, len(nm.Field(f.Tag)), nm.HasField(f.Tag), len(msg.Field(f.Tag))), witness(fmt.Sprintf("known tags rewritten: %v", known)))
+						return
+					}
+				}
+				res.Count("merge_then_set_programs", 1)
+			})
+			if pv != nil {
+				res.Violate("c16:"+runner.PanicKey(pv, stack), fmt.Sprintf("panic in merge-then-set: %v", pv), runner.TrimStack(stack))
 				return
 			}
 		}
